@@ -6,6 +6,10 @@ import json, os
 ALL = ["C%02d" % i for i in range(1, 53)]
 
 CLAIMED = {
+ "C32": dict(
+   text="Int (values.IntValue) + - * / % unary minus with operands up to 8 words, and | ^ & << >> with operands up to 2 words and shifts < 256: the real operation runs with a harness gauge that sums the BigInt memory it meters (real estimators, real wiring); solver shows metered bytes >= 8 * word length of the result for every operand pair in the bound, word lengths handled symbolically without case split.",
+   note="Bounds: 8-word operands (int-mode), 2-word operands and shifts < 256 (bv-mode, big.Int model width 448). UInt and the fixed 16/32-byte estimates of the 128/256-bit types are not covered yet. Metering order (before vs after computing) is not observable by the harness.",
+   design="3 C32"),
  "C21": dict(
    text="InclusiveRange for all 20 integer/Word element types: the real NewInclusiveRangeValueWithStep (construction fails exactly for step 0 / moving away from end), NewInclusiveRangeIterator + Next (first 3 (thorough 5) elements from construction, and one step from an arbitrary member position: a one-step induction over the position) and InclusiveRangeContains, against the exact arithmetic sequence in unbounded integers, for every start/end/step/needle of the type.",
    note="Three genuine defects are recorded as known findings (iterator steps past the type bound; contains() overflows on needle-start; contains(end) true for an unreachable end) and suppressed only inside their input regions. The atree-backed composite is replaced by a three-field object symbolically (natively the real composite is used); implicit-step constructor outside.",
@@ -73,7 +77,6 @@ NA_REASON = {
  "C28": "fault injection over whole executions; the wrapper layer alone has nothing quantified for a solver",
  "C29": "argument import over JSON/CCF decoders and value graphs",
  "C30": "termination/metering of arbitrary programs", "C31": "metering determinism across histories and processes",
- "C32": "not built yet",
  "C33": "outcome determinism across processes and map seeds",
  "C34": "VM vs interpreter equivalence on whole programs",
  "C36": "schedules / data races; the encoder is sequential",
